@@ -103,8 +103,16 @@ func runC06(t *sim.T, tier string) *sim.Violation {
 		inputs = append(inputs, c06Input{0, b, fmt.Sprintf("rt-corrupt(%dB)", len(b))})
 	}
 	nST := t.Choose(3)
+	giant := tier == "thorough" && t.Chance(1, 1500)
+	if giant {
+		nST = 1
+		t.Probe("giant-feed")
+	}
 	for i := 0; i < nST; i++ {
 		cfg := gen.DrawStaticCfg(t, false)
+		if giant {
+			cfg = gen.GiantStaticCfg(t)
+		}
 		if cfg.Services < 3 {
 			cfg.Services = 3 + t.Choose(4)
 		}
@@ -113,7 +121,11 @@ func runC06(t *sim.T, tier string) *sim.Violation {
 		// references): the parser's repairs of such input must be deterministic too
 		if t.Chance(1, 2) {
 			for n := t.Range(1, 3); n > 0; n-- {
-				if d := gen.MutateStatic(t, m, gen.FocusRefs); d != "" {
+				focus := gen.FocusRefs
+				if t.Chance(1, 3) {
+					focus = gen.FocusAll // archive layouts, raw member faults, wide tables, ...
+				}
+				if d := gen.MutateStatic(t, m, focus); d != "" {
 					t.Logf("static%d fault: %s", i, d)
 					t.Fault("record-fault-in-input")
 				}
@@ -156,7 +168,13 @@ func runC06(t *sim.T, tier string) *sim.Violation {
 		t.Logf("object #1 shares the extension object of #0")
 	}
 	R := c06Reps(tier, t)
+	if giant {
+		R = 4
+	}
 	nOps := t.Range(2, 10)
+	if giant {
+		nOps = 2
+	}
 	useCount := map[int]int{}
 	var seq strings.Builder
 	big := false
